@@ -410,9 +410,12 @@ nni_msg_pull_up(nni_msg *m)
 	}
 
 	// At this point, we have a unique instance of the message.
-	// We also know that we have sufficient space in the message,
-	// so this insert operation cannot fail.
-	nni_msg_insert(m, nni_msg_header(m), nni_msg_header_len(m));
+	// There is room for the header in the message, but it may be split
+	// between head and tail so that the insert has to reallocate: it
+	// can still fail, and then the message is left as it was.
+	if (nni_msg_insert(m, nni_msg_header(m), nni_msg_header_len(m)) != 0) {
+		return (NULL);
+	}
 	nni_msg_header_clear(m);
 	return (m);
 }
